@@ -232,7 +232,7 @@ func Check(c Case) ([]evid.Violation, info) {
 	var opts []larking.MuxOption
 	if c.Via >= 1 {
 		r := proto.Clone(c.newRule()).(*annotations.HttpRule)
-		r.Selector = fmt.Sprintf("rt.Svc%d.Mth%d", n, n)
+		r.Selector = fmt.Sprintf("rt.Svc%d.Mth", n)
 		opts = append(opts, larking.ServiceConfigOption(&serviceconfig.Service{Http: &annotations.Http{Rules: []*annotations.HttpRule{r}}}))
 	}
 	b := route.BuildWorld(w, n+1, seq(n), opts...)
